@@ -147,6 +147,74 @@ def determinism(argv):
     return 2 if bad else 0
 
 
+def simnet(argv):
+    """Conformance: the same scripted operations on a real socketpair and on SimSocket must give the
+    same observable results (data read, readiness, EOF, effect of closing in each order, fileno)."""
+    import select
+    import socket
+    from . import simnet as sn
+
+    class C:
+        now = 0.0
+
+    def real_pair():
+        a, b = socket.socketpair()
+        return a, b, (lambda s: bool(select.select([s], [], [], 0.05)[0])), None
+
+    def sim_pair():
+        net = sn.SimNet(C(), auto_latency=0.0)
+        lst = net.socket()
+        lst.bind(('h', 1))
+        lst.listen(1)
+        a = net.socket()
+        a.connect(('h', 1))
+        b, _ = lst.accept()
+        return a, b, (lambda s: s.readable()), net
+
+    def script(mk):
+        out = []
+        a, b, readable, net = mk()
+        rf = a.makefile('rb', buffering=0)
+        wf = a.makefile('wb', buffering=0)
+        brf = b.makefile('rb', buffering=0)
+        bwf = b.makefile('wb', buffering=0)
+        out.append(('b readable before data', readable(b)))
+        wf.write(b'\x90\x01\x02')
+        wf.flush()
+        out.append(('b readable after write', readable(b)))
+        out.append(('b reads', brf.read(1), brf.read(1)))
+        bwf.write(b'\xf8')
+        out.append(('a reads', readable(a), rf.read(1)))
+        a.close()
+        out.append(('a.fileno() valid after socket.close with files open', a.fileno() >= 0))
+        out.append(('b readable after a.close() only (one byte left)', readable(b), brf.read(1)))
+        out.append(('b sees EOF after a.close() only', readable(b)))
+        rf.close()
+        out.append(('b sees EOF after rfile.close', readable(b)))
+        wf.close()
+        out.append(('b sees EOF after wfile.close', readable(b), brf.read(1)))
+        out.append(('a.fileno() after everything closed', a.fileno()))
+        errs = []
+        for _ in range(3):
+            try:
+                bwf.write(b'x')
+                errs.append('ok')
+            except OSError as e:
+                errs.append(type(e).__name__)
+        out.append(('writes to a closed peer end in', errs[-1]))
+        return out
+
+    real = script(real_pair)
+    sim = script(sim_pair)
+    bad = 0
+    for r, m in zip(real, sim):
+        same = r == m
+        bad += 0 if same else 1
+        print(('same     ' if same else 'DIFFERENT'), r, '' if same else f'  sim: {m}')
+    print(f'simnet conformance: {len(real) - bad}/{len(real)} observations identical')
+    return 2 if bad else 0
+
+
 def main(argv):
     if not argv:
         print(__doc__)
@@ -157,5 +225,7 @@ def main(argv):
         return mutants(argv[1:], seeded=True)
     if argv[0] == 'determinism':
         return determinism(argv[1:])
+    if argv[0] == 'simnet':
+        return simnet(argv[1:])
     print(__doc__)
     return 2
